@@ -106,7 +106,7 @@ class World {
   bool last_config_load_ok = false;     // ... and whether the last one produced a parser
   void set_unique_counter(int major, int minor);      // hook H1: the next unique name the bus hands out
   void rewrite_config(const std::string &config_xml);   // what a later ReloadConfig will read
-  void start_bus(const std::string &config_xml, int uniq_major = 0, int uniq_minor = 0);
+  void start_bus(const std::string &config_xml, int uniq_major = 0, int uniq_minor = 0, int stamp_start = 0);
   bool bus_running() const { return ctx != nullptr; }
   // close all clients, quiesce, shut the bus down; checks block/fd baselines (fails with leak:* classes)
   void stop_bus(bool check_leaks = true);
